@@ -99,7 +99,7 @@ SPECS.update({
         assumptions=ASSUME_LIB),
     "C08": dict(
         harness="cryptolib", src=["harness/cryptolib.cpp"], plan=lib_plan("c08"), level="exploration",
-        rule="hmac::gethmac on memfd files: 5 keys x 3 hash modes x every message length 0..3R+65 x start positions (quick: 10 incl. 0,47,48,49,64; thorough: 0..80); cmphmac with the right tag and with every single-bit-flipped tag; "
+        rule="hmac::gethmac on memfd files: 5 keys x 3 hash modes x every message length 0..3R+65 x start positions (quick: 10 incl. 0,47,48,49,64; thorough: 0..80); cmphmac with the right tag and with every single-bit-flipped tag; one hmac object reused over all 15 (mode,key) pairs in 8 orders must behave like fresh objects; "
              "files written by execute_encrypt (T in {1,2,3,4,5,16}, 3 cipher modes, 3 hash modes, lengths 0..2*chunk+17): bytes [10,10+hlen) == HMAC of [48,EOF), [10+hlen,48) zero; oracle = OpenSSL HMAC()",
         assumptions=ASSUME_LIB + ASSUME_FILE[:1]),
     "C09": dict(
